@@ -513,6 +513,63 @@ pub fn run(a: &Args, rep: &mut Reporter) {
             }
         }
         rep.stat("pages_flipped_exhaustively", 1);
+        // structured forgeries of the checksum field: the right polynomial in the wrong byte order, reflected,
+        // complemented, rotated, another polynomial ... on the intact payload and on an altered payload whose
+        // "checksum" was recomputed in that wrong form. Each differs from the stored big-endian CRC-32C, so the
+        // page counts as altered and must be refused.
+        {
+            let ieee = |d: &[u8]| -> u32 {
+                let mut c: u32 = 0xFFFF_FFFF;
+                for &b in d {
+                    c ^= b as u32;
+                    for _ in 0..8 {
+                        c = if c & 1 == 1 { (c >> 1) ^ 0xEDB8_8320 } else { c >> 1 };
+                    }
+                }
+                !c
+            };
+            let forms: [(&str, fn(u32) -> [u8; 4]); 8] = [
+                ("little-endian", |c| c.to_le_bytes()),
+                ("complemented", |c| (!c).to_be_bytes()),
+                ("bit-reversed", |c| c.reverse_bits().to_be_bytes()),
+                ("rotated-8", |c| c.rotate_left(8).to_be_bytes()),
+                ("rotated-16", |c| c.rotate_left(16).to_be_bytes()),
+                ("rotated-24", |c| c.rotate_left(24).to_be_bytes()),
+                ("byte-pairs-swapped", |c| {
+                    let b = c.to_be_bytes();
+                    [b[1], b[0], b[3], b[2]]
+                }),
+                ("complemented-little-endian", |c| (!c).to_le_bytes()),
+            ];
+            for altered_payload in [false, true] {
+                let mut v = bytes.clone();
+                if altered_payload {
+                    let at = page * PAGE + r.usize(PAYLOAD);
+                    v[at] ^= 1 << r.usize(8);
+                    // keep clear of header fields with their own plausibility checks only by chance: any byte may be hit
+                }
+                let c = crc32c(&v[page * PAGE..page * PAGE + PAYLOAD]);
+                let right = bytes[page * PAGE + PAYLOAD..(page + 1) * PAGE].to_vec();
+                let mut cands: Vec<(String, [u8; 4])> = forms.iter().map(|(n, f)| (n.to_string(), f(c))).collect();
+                let ci = ieee(&v[page * PAGE..page * PAGE + PAYLOAD]);
+                cands.push(("crc32-ieee-be".into(), ci.to_be_bytes()));
+                cands.push(("crc32-ieee-le".into(), ci.to_le_bytes()));
+                cands.push(("zero".into(), [0; 4]));
+                cands.push(("ones".into(), [0xFF; 4]));
+                for (name, field) in cands {
+                    let mut w = v.clone();
+                    w[page * PAGE + PAYLOAD..(page + 1) * PAGE].copy_from_slice(&field);
+                    if !altered_payload && field[..] == right[..] {
+                        continue; // palindromic value: nothing was altered
+                    }
+                    if altered_payload && field == c.to_be_bytes() {
+                        continue; // would be a correctly sealed different page, not a corruption the checksum can see
+                    }
+                    let what = format!("checksum-forged:{}{}", name, if altered_payload { "+payload" } else { "" });
+                    judge(&w, true, &what, rep, &mut r, &mut cover);
+                }
+            }
+        }
         cover.hit(&format!("region:{}", region));
         // sampled multi-bit alterations
         for _ in 0..multi {
